@@ -17,10 +17,17 @@ pub struct Tier {
 pub fn tier_for(property: &str, tier: &str) -> Tier {
     let thorough = tier == "thorough";
     // K6/K7 (policies that try to set lease time / server identifier) matter to C10 and C13
-    let quick_cfgs = if property == "C10" || property == "C13" { vec!["K1", "K2", "K3", "K4", "K5", "K6", "K7"] } else { vec!["K1", "K2", "K3", "K4", "K5"] };
+    // K8 (a pool whose textual range encloses foreign addresses) matters to C09's exhaustion clause
+    let quick_cfgs = if property == "C10" || property == "C13" {
+        vec!["K1", "K2", "K3", "K4", "K5", "K6", "K7"]
+    } else if property == "C09" {
+        vec!["K1", "K2", "K3", "K4", "K5", "K8"]
+    } else {
+        vec!["K1", "K2", "K3", "K4", "K5"]
+    };
     if thorough {
         Tier {
-            spec_cfgs: vec!["K1", "K2", "K3", "K4", "K5", "K6", "K7"],
+            spec_cfgs: vec!["K1", "K2", "K3", "K4", "K5", "K6", "K7", "K8"],
             clients: 3,
             addrs: vec!["192.0.2.9", "192.0.2.10", "192.0.2.11", "198.51.100.10", "10.9.9.9"],
             ticks: vec![1, 150, 299, 300, 301, 30_000, 100_000],
